@@ -23,6 +23,8 @@ pub enum OVal {
     Float(String, &'static str),
     /// string by office:string-value attribute (content repeats it)
     StrAttr(String),
+    /// string by office:string-value attribute only: the element has no text:p child
+    StrAttrBare(String),
     /// string by element content: paragraphs split at '\n'
     StrContent(String, SpaceMode, bool /* wrap in text:span */),
     Bool(bool),
@@ -130,6 +132,9 @@ fn cell_xml(c: &OCell, rep: u32) -> String {
             if *ty == "currency" { a.push_str(" office:currency=\"EUR\""); }
             a.push_str(&format!(" office:value=\"{v}\""));
             body = format!("<text:p>{}</text:p>", esc_text(v));
+        }
+        OVal::StrAttrBare(s) => {
+            a.push_str(&format!(" office:value-type=\"string\" office:string-value=\"{}\"", esc(s)));
         }
         OVal::StrAttr(s) => {
             a.push_str(&format!(" office:value-type=\"string\" office:string-value=\"{}\"", esc(s)));
